@@ -29,17 +29,24 @@
    "conversions follow the documented coercions"            null_coercions, integral_conversion_preserves_value,
                                                             integral_conversion_wraps, int_to_double_exact, int64_to_double_exact,
                                                             int_double_int, decimal_string_roundtrip,
-                                                            int_equals_its_decimal_string
-   What the coercion clause rests on: the model's observers m_type / m_to_* are DEFINED as the Spec's functions applied to
-   what the code's switch(data->type) reads (VariantModel.shallow), and meq calls the Spec's eq_scalar_lhs on it; so
-   accessors_report_value and the scalar half of equality_is_spec_equality only say "the observers read nothing but the
-   type tag, the inline scalar or the String payload".  That the Spec's to_* functions are what the C++ casts and
-   String::to* do is carried by the correspondence run (every alternative against every other), not by a theorem.
+                                                            int_equals_its_decimal_string;
+                                                            the code's switches compute them: accessors_report_value,
+                                                            accessor_switches_compute_coercions, equality_converts_right_operand,
+                                                            string_equality_decided_by_scalar_side
+   What the coercion clause rests on (round 4): the model's observers m_type / m_is_null / m_to_* / meq are a separate
+   TRANSCRIPTION of the code (VariantModel.v: tag constants in enum order, one reader per member of the union, the C
+   conversion of every `return` written through Common.Words - w32/sx32/w64/sx64 -, bool -> 0/1, (T)double as truncation
+   with the representable range of T, (double)int exact and (double)int64 rounded, String::to*/from* through the trusted
+   libc reference functions; operator== as the switch on the LEFT operand's tag which converts the RIGHT operand, a string
+   on the left handing over to `other == *this`).  They do not mention the Spec's vtype / to_* / eq_scalar_lhs / veq;
+   accessors_report_value, accessor_switches_compute_coercions, equality_is_spec_equality, equality_converts_right_operand
+   and string_equality_decided_by_scalar_side PROVE them equal to the Spec's coercions.  The extracted driver prints these
+   observers (not the Spec's), so the correspondence run ties exactly this transcription to the code.
    The quantifier "all alternative types, nested containers": values are arbitrary trees (VariantSpec.value),
    histories are arbitrary lists of VariantSpec.op with arbitrary paths; doubles are the exact dyadic
    subset (NaN is excluded by the property; infinities and -0 are outside the Coq model and covered by a separate
    correspondence stream with a hand-written oracle).  Not proved (validated by the correspondence run only): that the
-   Spec's strtod/%f/int64->double reference functions are glibc's; string->bool table. *)
+   Spec's strtol/strtoul/strtod/%d/%u/%lld/%llu/%f/int64->double reference functions are glibc's; string->bool table. *)
 From Coq Require Import ZArith List Bool.
 From Common Require Import Words ListAux.
 From Variant Require Import VariantSpec VariantModel VariantProofs VariantSpecProofs VariantHeap VariantRefine
@@ -115,12 +122,39 @@ Theorem accessors_report_value : forall s vs j,
 Proof. exact VariantMain.accessors_report_value. Qed.
 Print Assumptions accessors_report_value.
 
+(* every switch(data->type) of the accessors, as transcribed, computes the Spec's coercion of what it reads - for every
+   heap and every handle whose block has not been released (no reachability needed) *)
+Theorem accessor_switches_compute_coercions : forall H h, readable H h ->
+  m_type H h = vtype (shallow H h) /\ m_to_bool H h = to_bool (shallow H h) /\
+  m_to_int H h = to_int (shallow H h) /\ m_to_uint H h = to_uint (shallow H h) /\
+  m_to_i64 H h = to_i64 (shallow H h) /\ m_to_u64 H h = to_u64 (shallow H h) /\
+  m_to_dbl H h = to_dbl (shallow H h) /\ m_to_str H h = to_str (shallow H h) /\
+  m_is_null H h = is_null (shallow H h).
+Proof. exact switch_is_coercion. Qed.
+Print Assumptions accessor_switches_compute_coercions.
+
 (* ---- (3) equality ---- *)
 Theorem equality_is_spec_equality : forall s vs i j,
   reachable s -> abs_vars s = map Some vs -> (i < length (vars s))%nat -> (j < length (vars s))%nat ->
   meq_top (hp s) (geth (vars s) i) (geth (vars s) j) = veq (getv vs i) (getv vs j).
 Proof. exact VariantMain.equality_is_spec_equality. Qed.
 Print Assumptions equality_is_spec_equality.
+
+(* which operand == converts: with a scalar on the left, the left operand's own member is compared with the RIGHT operand
+   converted to the left operand's type (one unit of fuel, any right operand) *)
+Theorem equality_converts_right_operand : forall H R f s b vb,
+  Inv H R -> hheld H R b -> den H vb b -> meq (S f) H (HS s) b = eq_scalar_lhs s vb.
+Proof. exact meq_scalar_lhs. Qed.
+Print Assumptions equality_converts_right_operand.
+
+(* a string against a scalar, in either order: the string is the operand that is converted (`return other == *this`) *)
+Theorem string_equality_decided_by_scalar_side : forall s vs i j str sc,
+  reachable s -> abs_vars s = map Some vs -> (i < length (vars s))%nat -> (j < length (vars s))%nat ->
+  getv vs i = VStr str -> getv vs j = VS sc ->
+  meq_top (hp s) (geth (vars s) i) (geth (vars s) j) = eq_scalar_lhs sc (VStr str) /\
+  meq_top (hp s) (geth (vars s) j) (geth (vars s) i) = eq_scalar_lhs sc (VStr str).
+Proof. exact VariantMain.string_equality_decided_by_scalar_side. Qed.
+Print Assumptions string_equality_decided_by_scalar_side.
 
 Theorem equality_reflexive : forall v, veq v v = Some true.
 Proof. exact veq_refl. Qed.
@@ -283,3 +317,18 @@ Example ex_nested_equal :
   veq (VNode KMap [[107%Z]] [VNode KArray [] [VS (SDbl 3 (-1)); VStr [120%Z]; VNode KList [] []]])
       (VNode KMap [[107%Z]] [VNode KArray [] [VS (SDbl 3 (-1)); VStr [120%Z]; VNode KList [] []]]) = Some true.
 Proof. vm_compute. reflexivity. Qed.
+
+(* the model's own transcription on concrete operands: wrap of a negative int64 in toUInt64, truncation of a uint64 in
+   toInt, (int)double toward zero and out of range, and the asymmetry of == (the right operand is the one converted):
+   5 == (int)4294967301 holds, 4294967301 == (int64)5 does not; "12" == 12 through the scalar side in both orders *)
+Example ex_transcribed_observers :
+  m_to_u64 [] (HS (SI64 (-5))) = Some 18446744073709551611%Z /\ m_to_u64 [] (HS (SInt (-1))) = Some 18446744073709551615%Z /\
+  m_to_int [] (HS (SU64 18446744073709551615)) = Some (-1)%Z /\ m_to_uint [] (HS (SI64 (-4294967295))) = Some 1%Z /\
+  m_to_int [] (HS (SDbl (-7) (-1))) = Some (-3)%Z /\ m_to_int [] (HS (SDbl 1 31)) = None /\ m_to_uint [] (HS (SDbl 1 31)) = Some 2147483648%Z /\
+  m_to_dbl [] (HS (SU64 18446744073709551615)) = (1, 64)%Z /\ m_to_str [] (HS (SBool true)) = [116; 114; 117; 101]%Z /\
+  meq_top [] (HS (SInt 5)) (HS (SI64 4294967301)) = Some true /\ meq_top [] (HS (SI64 4294967301)) (HS (SInt 5)) = Some false /\
+  (let H := [{| rc := 1; dp := 0; pl := PStr [49; 50]%Z |}] in
+   m_type H (HB 0) = 10%Z /\ m_to_int H (HB 0) = Some 12%Z /\ readable H (HB 0) /\
+   meq_top H (HB 0) (HS (SInt 12)) = Some true /\ meq_top H (HS (SInt 12)) (HB 0) = Some true /\
+   meq_top H (HB 0) (HS (SBool false)) = Some false /\ meq_top H (HB 0) (HS SNull) = Some false).
+Proof. repeat split; try (vm_compute; reflexivity). vm_compute. discriminate. Qed.
